@@ -368,3 +368,4 @@ pub proof fn lemma_stable_in_rep(fs: Seq<BF>, v: Seq<Term>)
     lemma_rep_sem(fs, fs.len() as int, a);
     assert forall|i: int| 0 <= i < fs.len() implies #[trigger] fs[i](a) == a(i as usize) by { lemma_total_fix_is_model(fs, tv, i); }
 }
+pub proof fn lemma_const_eval() ensures forall|c: bool, a: Asg| #[trigger] bf_const(c)(a) == c { }
